@@ -68,6 +68,24 @@ theorem C19_join_only_if_in_sync (rs : List TimeResult)
     rw [List.mem_filter]; exact ⟨hm, by simp [answered, ha]⟩
   · simp at h
 
+/-- The `-join` start-up path (`SynchronizedWithMasterAndNetwork`) decides on the measurements of the
+remaining peers followed by the measurement of the node being joined (`results = append(results, result)`):
+if it lets the node join, the node being joined — which must have answered, or the process has already
+exited — is within the election timeout, and so is every other peer that answered.  (That the Go code
+really passes `collected ++ [master]` is exercised end to end by the `join …` scenarios of the check.) -/
+theorem C19_join_path (collected : List TimeResult) (master : TimeResult)
+    (h : synchronized false (collected ++ [master]) = .ok)
+    (r : TimeResult) (hm : r = master ∨ r ∈ collected) (ha : r.result ≠ zeroTime) (t δ : Int)
+    (h1 : r.start ≤ t) (h2 : t ≤ r.end_) (hr : r.result = t + δ) :
+    -electionTimeout < δ ∧ δ < electionTimeout := by
+  refine C19_join_only_if_in_sync _ h r ?_ ha t δ h1 h2 hr
+  rcases hm with rfl | hm
+  · simp
+  · simp [hm]
+
+/-- non-vacuity: a join target 1 ns ahead, one peer that did not answer -/
+example : synchronized false ([⟨0, 0, zeroTime⟩] ++ [⟨1432323893000000000, 1432323893500000000, 1432323893000000001⟩]) = .ok := by decide
+
 /-- Otherwise it refuses and reports exactly the offending peers that answered. -/
 theorem C19_refuses_and_reports (rs : List TimeResult)
     (hbad : ∃ r ∈ rs, r.result ≠ zeroTime ∧ worstCaseDrift r ≥ electionTimeout) :
